@@ -742,6 +742,10 @@ fn special_clause(sp: &Special) -> DynClause {
         ),
         #[cfg(not(feature = "stdworld"))]
         Special::MockedReport { .. } => DynClause::new(()),
+        #[cfg(feature = "stdworld")]
+        Special::MockedReportPanics => DynClause::new(unimock::mock::std::process::TerminationMock::report.each_call(matching!()).panics("explicit panic of report()")),
+        #[cfg(not(feature = "stdworld"))]
+        Special::MockedReportPanics => DynClause::new(()),
         Special::OwnUnit { .. } => DynClause::new(OwnMock::own_unit.some_call(matching!(_)).returns(())),
         Special::OwnOptMulti { quant, id } => quantified(
             OwnMock::own_opt_multi
